@@ -3,6 +3,7 @@ CONSTANTS
   N = 2
   Subs = {1}
   TaskOf <- T_1x2
+  Follow <- F_none
   Lazy = FALSE
   Detached = FALSE
   WaitAll = TRUE
